@@ -101,6 +101,7 @@ func newEnv() *env {
 	en.vals[vRet] = r.Get("RET")
 	en.vals[vSW] = r.Get("SW")
 	en.vals[vExObj] = r.Get("EXOBJ")
+	en.vals[vR99] = r.Get("R99")
 	en.goErr = r.Get("GoError").(*goja.Object)
 	en.myErr = r.Get("MyErr").(*goja.Object)
 	en.tyErr = r.Get("TypeError").(*goja.Object)
@@ -175,9 +176,30 @@ func (en *env) getterHolder(next goja.Value) *goja.Object {
 	return o
 }
 
-func (en *env) makeExit(x Exit, next goja.Value) invoker {
+func (en *env) makeExit(i int, x Exit, next goja.Value) invoker {
 	r := en.r
 	switch x {
+	case xForOfStep, xForOfStepRT:
+		fn, ok := goja.AssertFunction(next)
+		mk, ok2 := goja.AssertFunction(r.Get("MKSTEPITER"))
+		if !ok || !ok2 {
+			panic(setupError("AssertFunction failed"))
+		}
+		it, err := mk(goja.Undefined(), r.ToValue(i), r.ToValue(x == xForOfStepRT))
+		if err != nil {
+			panic(setupError("MKSTEPITER: " + err.Error()))
+		}
+		return func() (res goja.Value, _ error) {
+			r.ForOf(it, func(goja.Value) bool {
+				v, err := fn(goja.Undefined())
+				if err != nil {
+					en.raiseErr(err)
+				}
+				res = v
+				return false
+			})
+			return
+		}
 	case xCallable:
 		fn, ok := goja.AssertFunction(next)
 		if !ok {
@@ -321,7 +343,7 @@ func (en *env) build() {
 			if i == n {
 				body = en.nativeRaise
 			} else {
-				body = en.makeExit(f.Exit, en.objs[i+1])
+				body = en.makeExit(i, f.Exit, en.objs[i+1])
 			}
 			obj = en.makeNative(i, f, body)
 		}
@@ -351,7 +373,7 @@ func (en *env) hostCall() (obs hostObs) {
 		}
 		inv = func() (goja.Value, error) { return r.RunProgram(runPrgs[act]) }
 	case hCallable:
-		inv = en.makeExit(xCallable, first)
+		inv = en.makeExit(0, xCallable, first)
 	case hConstruct:
 		ctor, ok := goja.AssertConstructor(first)
 		if !ok {
@@ -365,13 +387,13 @@ func (en *env) hostCall() (obs hostObs) {
 			return o, nil
 		}
 	case hExportFn:
-		inv = en.makeExit(xExportFn, first)
+		inv = en.makeExit(0, xExportFn, first)
 	case hExportFnErr:
-		inv = en.makeExit(xExportFnErr, first)
+		inv = en.makeExit(0, xExportFnErr, first)
 	case hTryGet:
-		inv = en.makeExit(xTryGet, first)
+		inv = en.makeExit(0, xTryGet, first)
 	case hTryForOf:
-		f := en.makeExit(xForOf, first)
+		f := en.makeExit(0, xForOf, first)
 		inv = func() (v goja.Value, err error) {
 			if ex := r.Try(func() { v, _ = f() }); ex != nil {
 				return nil, ex
@@ -379,7 +401,15 @@ func (en *env) hostCall() (obs hostObs) {
 			return
 		}
 	case hTryJSProxy:
-		f := en.makeExit(xJSProxy, first)
+		f := en.makeExit(0, xJSProxy, first)
+		inv = func() (v goja.Value, err error) {
+			if ex := r.Try(func() { v, _ = f() }); ex != nil {
+				return nil, ex
+			}
+			return
+		}
+	case hTryForOfStep:
+		f := en.makeExit(0, xForOfStep, first)
 		inv = func() (v goja.Value, err error) {
 			if ex := r.Try(func() { v, _ = f() }); ex != nil {
 				return nil, ex
